@@ -117,8 +117,14 @@ DomainOK(r, q) ==
   ELSE LET sufs == {Str(s) : s \in HostSuffixes(q.src)} IN
        {(r.dom = {} \/ sufs \cap r.dom # {}) /\ (sufs \cap r.ndom = {})}
 
+\* 'csp_report' is a request type no rule option names.  A rule restricted to positive types can
+\* never apply to it; whether an unrestricted rule does is not stated (the code never matches it).
+CspReportOK(r) == IF r.pos # {} \/ r.mkind \in {"csp", "removeparam"} THEN {FALSE} ELSE {TRUE, FALSE}
+
 OptionsOK(r, q) ==
-  IF r.badfilter \/ ~Supported(q) \/ ~TypeOK(r, q) \/ ~PartyOK(r, q) THEN {FALSE}
+  IF r.badfilter \/ ~Supported(q) \/ ~PartyOK(r, q) THEN {FALSE}
+  ELSE IF RType(q) = "csp_report" THEN And3(CspReportOK(r), DomainOK(r, q))
+  ELSE IF ~TypeOK(r, q) THEN {FALSE}
   ELSE DomainOK(r, q)
 
 \* does rule r hit request q (pattern and options)
@@ -163,6 +169,16 @@ PrioVal(p) == CASE p = "none" -> 0 [] p = "0" -> 0 [] p = "1" -> 1 [] p = "10" -
                 [] p = "-1" -> 0 - 1 [] OTHER -> 0
 \* a malformed priority suffix is part of the resource name
 ResName(r) == IF r.prio = "x" THEN r.mval \o ":x" ELSE r.mval
+
+\* A resource store is built by adding resources one at a time; an addition whose name or one of
+\* whose aliases is already known (as a name or as an alias) is rejected and changes nothing.
+RECURSIVE EffectiveStore(_)
+EffectiveStore(rs) ==
+  IF Len(rs) = 0 THEN {}
+  ELSE LET prev == EffectiveStore(SubSeq(rs, 1, Len(rs) - 1))
+           x == rs[Len(rs)]
+           known == UNION {{y.name} \cup y.aliases : y \in prev}
+       IN IF ({x.name} \cup x.aliases) \cap known # {} THEN prev ELSE prev \cup {x}
 
 ResourceOut(Res, name) ==
   LET c == {x \in Res : x.name = name \/ name \in x.aliases} IN
